@@ -30,17 +30,21 @@ def run(ctx):
     # 2. behaviours -> real store: deletes between / inside snapshots (gate), before / after compactions,
     #    crashes inside the delete; reads + listings after every later step
     n = ctx.pick(1, 5)
+    fixed = te.known_behaviours(ctx)
+    have_f14 = sum(1 for b in fixed if te.has_f14_window(b))
+    have_sb = sum(1 for b in fixed if te.shared_bound_pairs(b) >= 1)
     gens = te.run_parallel([
         lambda: te.generate(ctx, sd, "GenDel", te.gen_consts(["write", "snapshot", "compact", "delete", "reopen", "crash"], dele=4, crash=2, crash_in=("delete", "idle", "compact", "restart")), num=10 * n),
         lambda: te.generate(ctx, sd, "GenGate", te.gen_consts(["write", "snapshot", "gate", "delete", "reopen", "crash"], dele=3, crash=2, comp=0), num=6 * n),
-        lambda: te.generate(ctx, sd, "GenWindow", te.gen_consts(["write", "gate", "delete"], dele=3, crash=0, comp=0, genlen=8), num=12 * n, variants=1),
+        lambda: te.generate_with(ctx, sd, "GenWindow", te.gen_consts(["write", "gate", "delete"], dele=3, crash=0, comp=0, genlen=8), 12 * n,
+                                 te.has_f14_window, 2, "a delete inside the snapshot window", variants=1, have=have_f14)[0],
         lambda: te.generate(ctx, sd, "GenPartial", te.gen_consts(["write", "snapshot", "delete"], dele=3, crash=0, comp=0, w=5, genlen=8), num=24 * n, variants=1),
         # tombstones of one file whose ranges share exactly one bound (open-ended / same start or same end), then reopen
         lambda: te.generate_shared_bound(ctx, sd, "GenBounds", te.gen_consts(["write", "snapshot", "delete", "effdel", "reopen"], dele=4, crash=0, comp=0, w=3, snap=2, genlen=9),
-                                         num=60 * n, keep=14 * n, need=6),
+                                         num=60 * n, keep=14 * n, need=6, have=have_sb),
         lambda: te.generate(ctx, sd, "GenDelComp", te.gen_consts(["write", "snapshot", "compact", "delete"], dele=3, crash=0, w=5, snap=4), num=8 * n),
     ], max_workers=6)
-    behs = te.known_behaviours(ctx) + [b for g in gens for b in g]
+    behs = fixed + [b for g in gens for b in g]
     acts, f1, f14 = te.stats(behs)
     ndel = sum(v for k, v in acts.items() if k.startswith("delete"))
     log("  behaviours: %d; deletes: %d; behaviours with a delete inside the snapshot window: %d" % (len(behs), ndel, f14))
